@@ -166,7 +166,8 @@ func BuildPKI(cs Case) (*PKI, error) {
 	if ck == "" {
 		ck = "E"
 	}
-	cleaf := pki.Cert{ID: "cli-" + ck, Subj: "Cli", Key: ck + "_cli", Iss: "IntA", SKey: "K_intA", NB: leafNB, NA: leafNA,
+	// the client leaf is valid at every scenario time; only ClientExpired narrows it
+	cleaf := pki.Cert{ID: "cli-" + ck, Subj: "Cli", Key: ck + "_cli", Iss: "IntA", SKey: "K_intA", NB: 10, NA: 90000,
 		DNS: []string{"cli.example"}, EKU: []string{"client"}, AKID: "K_intA", KU: int(stdx509.KeyUsageDigitalSignature)}
 	cinter := interCert("A")
 	switch cs.CScen {
